@@ -162,6 +162,33 @@ def make_subclass(rng, spec):
     return {"name": cls.__name__, "fields": fields, "cls": cls, "parent": spec}
 
 
+def make_extension(rng, spec):
+    """A class derived from spec's class in the usual way of adding fields to those of the parent:
+    `_xofields = {**Parent._xofields, 'ext': ...}` (the parent's own dictionary entries, types or xo.Field objects, are
+    used again), with the new field(s) after and sometimes also in front of the inherited ones (so the inherited fields
+    get other offsets in the derived class).  Objects of the parent class must not notice."""
+    parent = spec["cls"]
+    xof, fields = {}, []
+    if rng.random() < 0.5:
+        xof["ext0"] = xo.Int64
+        fields.append(("ext0", "ext0", "sc", "Int64", None))
+    xof.update(parent._xofields)
+    fields.extend(spec["fields"])
+    if rng.random() < 0.7:
+        xof["ext1"] = _arr_type("Float64", [None])
+        fields.append(("ext1", "ext1", "arr", ("Float64", [None]), None))
+    else:
+        xof["ext1"] = xo.Float64
+        fields.append(("ext1", "ext1", "sc", "Float64", None))
+    ns = {"_xofields": xof}
+    ren = {xn: pn for xn, pn, *_ in spec["fields"] if xn != pn}
+    if ren:
+        ns["_rename"] = ren
+    cls = type(f"{spec['name']}Ext{next(_uid)}", (parent,), ns)
+    register(cls)
+    return {"name": cls.__name__, "fields": fields, "cls": cls, "parent": spec}
+
+
 def gen_family(rng, levels=2, refs=True, defaults=False, rename_p=0.3):
     """-> (specs innermost first, outer spec)"""
     specs = []
